@@ -525,6 +525,11 @@ func rulesC06(c *Ctx) {
 			case "(*ServerSession).initialized":
 				wi, wd := phaseFlags(root, initParamsF, initdParamsF)
 				ok := inUpdateState(w.f) && wi != nil && wd != nil && hasAtom(guards, func(a Atom) bool { return a.Val && w.f.ObjOf(a.E) == wi }) && hasAtom(guards, func(a Atom) bool { return !a.Val && w.f.ObjOf(a.E) == wd })
+				// the same two facts tested on the state itself, in the closure that stores
+				if !ok && inUpdateState(w.f) {
+					ok = hasAtom(guards, func(a Atom) bool { return AtomSaysNil(a, false, func(e ast.Expr) bool { return w.f.IsField(e, initParamsF) }) }) &&
+						hasAtom(guards, func(a Atom) bool { return AtomSaysNil(a, true, func(e ast.Expr) bool { return w.f.IsField(e, initdParamsF) }) })
+				}
 				c.Check(ok, key, w.f, w.n, "initialized stores only under wasInit && !wasInitd (guards: %s)", atomsString(guards))
 			case "(*StreamableHTTPHandler).ephemeralConnectOpts":
 				c.Ok(key, w.f, w.n, "constructor of a fresh stateless session")
@@ -577,6 +582,34 @@ func rulesC06(c *Ctx) {
 					return (o != nil && o == wi && ((name == "initialize" && a.Val) || (name == "initialized" && !a.Val))) || (o != nil && o == wd && a.Val) || AtomSaysNil(a, true, func(e ast.Expr) bool { return f.ObjOf(e) == types.Object(paramsP) })
 				})
 				nErr++
+				if !ok {
+					// the closure reports its refusal through a captured error: every assignment of a non-nil value to it lies on
+					// a path of the closure that cannot reach a store any more, and the rejection is returned under "that error is set"
+					for _, l := range f.Lits() {
+						if !inUpdateState(l) {
+							continue
+						}
+						lg := l.Graph()
+						stores := append(l.FieldWrites(l.Body, initParamsF, false), l.FieldWrites(l.Body, initdParamsF, false)...)
+						for _, w := range Writes(l.Body, false) {
+							ev, isV := l.ObjOf(w.LHS).(*types.Var)
+							if !isV || ev.IsField() || w.RHS == nil || isNilIdent(w.RHS) || types.TypeString(ev.Type(), nil) != "error" {
+								continue
+							}
+							clean := len(stores) > 0
+							for _, st := range stores {
+								if lg.ReachableFrom(lg.VertexOf(w.Stmt))[lg.VertexOf(st)] {
+									clean = false
+								}
+							}
+							if clean && hasAtom(guards, func(a Atom) bool {
+								return AtomSaysNil(a, false, func(e ast.Expr) bool { o := f.ObjOf(e); return o != nil && f.aliasesOf(o)[types.Object(ev)] })
+							}) {
+								ok = true
+							}
+						}
+					}
+				}
 				c.Check(ok, name+":reject-on-non-writing-branch", f, r, "the rejection is returned exactly on a branch where the closure did not store (guards: %s)", atomsString(guards))
 			}
 			c.Pin(name+" rejections", nErr, map[string]int{"initialize": 2, "initialized": 2}[name])
